@@ -22,6 +22,15 @@ Run/RunBase.vos Run/RunBase.vok Run/RunBase.required_vos: Run/RunBase.v Base.vos
 Run/RunC01.vo Run/RunC01.glob Run/RunC01.v.beautified Run/RunC01.required_vo: Run/RunC01.v Base.vo Model/Core.vo Model/Shift.vo Model/AddSub.vo Run/RunBase.vo
 Run/RunC01.vio: Run/RunC01.v Base.vio Model/Core.vio Model/Shift.vio Model/AddSub.vio Run/RunBase.vio
 Run/RunC01.vos Run/RunC01.vok Run/RunC01.required_vos: Run/RunC01.v Base.vos Model/Core.vos Model/Shift.vos Model/AddSub.vos Run/RunBase.vos
-Properties/C01.vo Properties/C01.glob Properties/C01.v.beautified Properties/C01.required_vo: Properties/C01.v Base.vo Prim.vo Model/Digit.vo Model/Core.vo Model/Shift.vo Model/AddSub.vo
-Properties/C01.vio: Properties/C01.v Base.vio Prim.vio Model/Digit.vio Model/Core.vio Model/Shift.vio Model/AddSub.vio
-Properties/C01.vos Properties/C01.vok Properties/C01.required_vos: Properties/C01.v Base.vos Prim.vos Model/Digit.vos Model/Core.vos Model/Shift.vos Model/AddSub.vos
+Proofs/Bitwise.vo Proofs/Bitwise.glob Proofs/Bitwise.v.beautified Proofs/Bitwise.required_vo: Proofs/Bitwise.v Base.vo Prim.vo Model/Digit.vo Model/Core.vo Model/Shift.vo
+Proofs/Bitwise.vio: Proofs/Bitwise.v Base.vio Prim.vio Model/Digit.vio Model/Core.vio Model/Shift.vio
+Proofs/Bitwise.vos Proofs/Bitwise.vok Proofs/Bitwise.required_vos: Proofs/Bitwise.v Base.vos Prim.vos Model/Digit.vos Model/Core.vos Model/Shift.vos
+Proofs/AddSubLemmas.vo Proofs/AddSubLemmas.glob Proofs/AddSubLemmas.v.beautified Proofs/AddSubLemmas.required_vo: Proofs/AddSubLemmas.v Base.vo Prim.vo Model/Digit.vo Model/Core.vo Model/Shift.vo Model/AddSub.vo
+Proofs/AddSubLemmas.vio: Proofs/AddSubLemmas.v Base.vio Prim.vio Model/Digit.vio Model/Core.vio Model/Shift.vio Model/AddSub.vio
+Proofs/AddSubLemmas.vos Proofs/AddSubLemmas.vok Proofs/AddSubLemmas.required_vos: Proofs/AddSubLemmas.v Base.vos Prim.vos Model/Digit.vos Model/Core.vos Model/Shift.vos Model/AddSub.vos
+Proofs/AddSub.vo Proofs/AddSub.glob Proofs/AddSub.v.beautified Proofs/AddSub.required_vo: Proofs/AddSub.v Base.vo Prim.vo Model/Digit.vo Model/Core.vo Model/Shift.vo Model/AddSub.vo Proofs/AddSubLemmas.vo Proofs/Bitwise.vo
+Proofs/AddSub.vio: Proofs/AddSub.v Base.vio Prim.vio Model/Digit.vio Model/Core.vio Model/Shift.vio Model/AddSub.vio Proofs/AddSubLemmas.vio Proofs/Bitwise.vio
+Proofs/AddSub.vos Proofs/AddSub.vok Proofs/AddSub.required_vos: Proofs/AddSub.v Base.vos Prim.vos Model/Digit.vos Model/Core.vos Model/Shift.vos Model/AddSub.vos Proofs/AddSubLemmas.vos Proofs/Bitwise.vos
+Properties/C01.vo Properties/C01.glob Properties/C01.v.beautified Properties/C01.required_vo: Properties/C01.v Base.vo Prim.vo Model/Digit.vo Model/Core.vo Model/Shift.vo Model/AddSub.vo Proofs/AddSub.vo
+Properties/C01.vio: Properties/C01.v Base.vio Prim.vio Model/Digit.vio Model/Core.vio Model/Shift.vio Model/AddSub.vio Proofs/AddSub.vio
+Properties/C01.vos Properties/C01.vok Properties/C01.required_vos: Properties/C01.v Base.vos Prim.vos Model/Digit.vos Model/Core.vos Model/Shift.vos Model/AddSub.vos Proofs/AddSub.vos
